@@ -5,6 +5,8 @@ C19.a  compile matrix: every combination of the eight documented switches (plus 
        which instantiates both activation modes, payload / payload-free machines and all four context kinds.
 C19.b  differential facts: for each feature X, the library functions reachable with X on equal those with X
        off after erasing events that touch only X-owned state (rules/c19_diff.py).
+C19.d  [summary] the feature code stays inside feature-owned storage: the state ids the library itself feeds into the plan
+       feature's bit arrays -- the invalid id of the root head included -- are below their capacity (shares C18.h).
 C19.c  amalgamation: include/ffsm2/machine.hpp is byte-identical to what tools/join.py produces from
        development/ (translation validation: generator run in a scratch copy + independent re-implementation).
 """
@@ -239,6 +241,16 @@ def run(run):
                 for v_ in facts.variants(run.tier):
                     run.guard('differential', _c16.differential, run, a_, b_, v_)
             run.relabel('C16.d', 'C19.b')
+            # "touches only feature-owned state" presupposes that the feature's code stays inside its own storage: the ids the
+            # library itself feeds into the plan feature's bit arrays (the root head's invalid id among them) are in range (C18.h)
+            from rules import c18 as _c18
+            from lint import effects as _eff
+            for c_ in (['P'] if run.tier == 'quick' else ['P', 'PSHL', 'PSHVRDT']):
+                for v_ in facts.variants(run.tier):
+                    F_ = facts.load('w_core', c_, v_)
+                    run.guard('state id indices', _c18.state_id_indices, run, F_, _eff.Effects(F_), 'C19.d')
+                    facts.drop(F_)
+            run.floor('C19.d', 5)
         except AnalysisBroken as e:
             # a configuration that does not compile is already reported by the matrix (C19.a); the differential needs facts of that
             # configuration and cannot say more. Without a matrix failure a broken differential is a broken analysis.
